@@ -15,6 +15,8 @@ async def _run(ops, talking, late_fail=False, close_stall=0, write_fault=None):
     for op in ops:
         if op[0] == "connect":
             script += [False] * op[1] + [True]
+        elif op[0] == "loss-slow-retry":
+            script += [False, ["slow", op[1]]]
         elif op[0] == "loss":
             script += [False] * op[1] + ([True] if op[2] else [False] * 50)
     conn, proto = CI.make_connection(script, log, transports, default_ok=not late_fail)
@@ -116,6 +118,13 @@ async def _run(ops, talking, late_fail=False, close_stall=0, write_fault=None):
                 await PI.settle(10)
             else:
                 await asyncio.sleep(op[3])          # close while the reconnect chain is sleeping / retrying
+        elif k == "loss-slow-retry" and transports and proto.connected.is_set():
+            # the first reconnect attempt fails; the retry (a task of the connection) is in the middle of opening the transport --
+            # an open that takes op[1] more loop iterations and then succeeds -- when close() is issued
+            from pyplumio.connection import RECONNECT_TIMEOUT
+            transports[-1][0].feed_eof()
+            await PI.settle(20)
+            await asyncio.sleep(RECONNECT_TIMEOUT)
         elif k == "silence":
             await asyncio.sleep(op[1])
     # ---- the state close() is issued in ----
@@ -220,6 +229,12 @@ class C12(Prop):
                    ["subtasks", [[kind, rng.choice(first)] for _ in range(rng.randrange(1, 3))]],
                    ["traffic", [["sensor-with", later if kind == "mixer" else [], later if kind == "thermostat" else []]]]]
             cases.append({"kind": "sub-devices-come-and-go", "ops": ops, "talking": False, "late_fail": False})
+        # close() while a reconnect retry is opening the transport (the open completes 0..8 loop iterations later), with and
+        # without a device entry
+        for y in range(0, 9):
+            for with_dev in (False, True):
+                ops = [["connect", 0]] + ([["traffic", ["sensor"]]] if with_dev else []) + [["loss-slow-retry", y]]
+                cases.append({"kind": "close-during-open", "ops": ops, "talking": False, "late_fail": False, "repeat": 3})
         from pyplumio.connection import RECONNECT_TIMEOUT
         for k in (1, 2, 3, 4):
             for lf in (True, False):
